@@ -260,6 +260,15 @@ class ExprMixin:
             last = self.eval(e, fr)
             if i == len(node.values) - 1:
                 break
+            if getattr(self, "_generic_depth", 0) and self.truth(last) is None and isinstance(last, Term) and last.kind == "bool" \
+                    and all(isinstance(x, (ast.Compare, ast.Call, ast.UnaryOp, ast.Name, ast.BoolOp)) for x in node.values[i + 1:]):
+                # inside the once-evaluated body of a comprehension over a source that cannot be enumerated
+                rest = [self.eval(x, fr) for x in node.values[i + 1:]]
+                if all(isinstance(r_, V) and (r_.kind == "bool" or isinstance(r_, Const)) for r_ in rest):
+                    ops = [last] + [r_ for r_ in rest if not (isinstance(r_, Const) and bool(r_.value) is is_and)]
+                    if any(isinstance(r_, Const) and bool(r_.value) is not is_and for r_ in rest):
+                        return Const(not is_and)
+                    return ops[0] if len(ops) == 1 else Term("and" if is_and else "or", tuple(ops), kind="bool", node=node)
             t = self.decide(last, e)
             if is_and and not t:
                 return last
@@ -502,6 +511,11 @@ class ExprMixin:
             if is_ell(x):
                 return True
             k = self.kind_of(x)
+            if k is not None and (k == "Schema" or k.endswith("Schema")) and not isinstance(x, Const) \
+                    and "__eq__" in getattr(getattr(self, "model", None), "overrides", {}):
+                # `schema == ...` is the package's overridden Schema.__eq__: "does `...` validate against the schema" - true
+                # for a bare schema.any; also reached as the reflected operand of `... == schema`
+                return None
             if k is not None and k != "ellipsis":
                 return False
             if isinstance(x, Sym) and "ellipsis" in self.notkinds.get(x.uid, []):
@@ -649,6 +663,14 @@ class ExprMixin:
             v = recv.lookup(idx)
             if v is not None:
                 return v
+            # a {False: a, True: b} table indexed by a comparison: the two-way choice the comparison decides
+            if recv.concrete() and isinstance(idx, Term) and idx.kind == "bool" and idx.op in ("lt", "eq", "not", "in", "is", "isinstance", "and", "or") \
+                    and sorted((repr(k.value) for k, _ in recv.pairs() if isinstance(k, Const) and isinstance(k.value, bool))) == ["False", "True"] \
+                    and len(recv.pairs()) == 2:
+                want = self.decide(idx, node)
+                for k, val in recv.pairs():
+                    if isinstance(k, Const) and k.value is want:
+                        return val
             fac = getattr(recv, "default_factory", None)
             if fac is not None and recv.concrete() and all(self._equal(k, idx) is False or k.key() != idx.key()
                                                            for k, _ in recv.pairs()):
@@ -816,8 +838,23 @@ class ExprMixin:
                 return FuncV(m, ClassV(ci))
             return FuncV(m, recv)
         a = ci.lookup_attr(attr)
+        if a is None:
+            for c3 in ci.mro():         # private names are stored unmangled in the class body
+                pre3 = "_" + c3.name.lstrip("_") + "__"
+                if attr.startswith(pre3) and ("__" + attr[len(pre3):]) in c3.attrs:
+                    a = (c3, c3.attrs["__" + attr[len(pre3):]])
+                    break
         if a is not None:
             c2, expr = a
+            # `name = functools.partialmethod(method, *args)` in the class body: the method with leading arguments bound
+            from .flow import dotted as _dotted
+            if isinstance(expr, ast.Call) and not expr.keywords and expr.args and isinstance(expr.args[0], ast.Name) \
+                    and (_dotted(self.prog, c2.module, expr.func) or "").endswith("partialmethod"):
+                target = c2.lookup(expr.args[0].id) or c2.lookup("_" + c2.name.lstrip("_") + expr.args[0].id)
+                if target is not None:
+                    fv = FuncV(target, recv)
+                    fv.pre_args = [self.eval(x, Frame(None, c2.module, {})) for x in expr.args[1:]]   # type: ignore[attr-defined]
+                    return fv
             return self.eval(expr, Frame(None, c2.module, {}))
         # __getattr__ fallbacks defined by d42 raise AttributeError
         ga = ci.lookup("__getattr__")
@@ -862,10 +899,16 @@ class ExprMixin:
                 opaque[0] = True
                 elem = self.generic_element(it, node)
                 self.assign(g.target, elem, inner, node)
-                conds = [self.eval(c, inner) for c in g.ifs]
-                all_conds.extend(conds)
-                self.emit("comp_iter", node, iterable=it, conds=conds, make=make)
-                rec(gi + 1)
+                # the body is evaluated ONCE for a member that stands for all of them: `a and b` over that member is a
+                # term, not a decision taken for the whole source
+                self._generic_depth = getattr(self, "_generic_depth", 0) + 1
+                try:
+                    conds = [self.eval(c, inner) for c in g.ifs]
+                    all_conds.extend(conds)
+                    self.emit("comp_iter", node, iterable=it, conds=conds, make=make)
+                    rec(gi + 1)
+                finally:
+                    self._generic_depth -= 1
 
         n_ev = len(self.events)
         uid_mark = next(_uid_counter)
